@@ -12,6 +12,7 @@ b. '+': symbolic bracketing / history (operand used before, operand already part
 c. backend stages: backend / user / output-format pipelines, output format given or omitted,
    1..2 rules with 1..2 conditions.
 """
+import copy
 import itertools
 
 from backends.vbackend import VBackend
@@ -179,6 +180,34 @@ def check_add(variant: int, probe_shape: int) -> bool:
     elif variant == 6:  # right operand was already part of another sum
         _ = p2 + p3
         got, tags = p1 + p3, ["x", "z"]
+    elif variant in (8, 9):
+        # an operand that contributes only query post-processing (no transformation items) and reads the
+        # pipeline's variables; it is reused in a second sum after the first one was built
+        tpl = {"name": "o", "priority": 0, "postprocessing": [{"id": "p_o", "type": "template", "template": "{{ pipeline.vars.last }}={{ query }}"}]}
+        o = ProcessingPipeline.from_dict(copy.deepcopy(tpl))
+        a = p1 + o
+        cls = type("B", (PlainBackend,), {"backend_processing_pipeline": ProcessingPipeline(), "output_format_processing_pipeline": {"default": ProcessingPipeline()}})
+        ba = cls(a)
+        first = ba.convert(SigmaCollection(probe_rules(nr, nc)))  # builds ba's combined pipeline
+        b = p2 + o  # the shared operand is taken over by a second sum ...
+        bb = cls(b)
+        if variant == 9:
+            bb.convert(SigmaCollection(probe_rules(nr, nc)))  # ... which is also used
+        again = [q for r in probe_rules(nr, nc) for q in ba.convert_rule(r)]  # ba converts further rules with the pipeline it built
+        second = bb.convert(SigmaCollection(probe_rules(nr, nc)))
+        for t, got_first, got_again in (("x", first, again), ("y", second, None)):
+            d = {"name": "ref", "priority": 0, "vars": {"last": t, f"only_{t}": t}, "transformations": [{"id": f"t_{t}", "type": "field_name_suffix", "suffix": f"_{t}"}],
+                 "postprocessing": [{"id": f"p_{t}", "type": "embed", "prefix": f"{t}[", "suffix": "]"}, copy.deepcopy(tpl["postprocessing"][0])],
+                 "finalizers": [{"type": "concat", "separator": "|", "prefix": f"{t}{{", "suffix": "}"}]}
+            ref = ProcessingPipeline.from_dict(copy.deepcopy(d))
+            if got_first != convert_with(ref, nr, nc):
+                return False
+            if got_again is not None:
+                rb = cls(ProcessingPipeline.from_dict(copy.deepcopy(d)))
+                rb.convert(SigmaCollection(probe_rules(nr, nc)))
+                if got_again != [q for r in probe_rules(nr, nc) for q in rb.convert_rule(r)]:
+                    return False
+        return True
     else:  # None on the right
         got, tags = (p1 + None) + p2, ["x", "y"]
     ref = concat_pipeline(tags)
@@ -189,12 +218,12 @@ def check_add(variant: int, probe_shape: int) -> bool:
 
 def c14b_add(variant: int, shape: int) -> bool:
     """
-    pre: 0 <= variant < 8
+    pre: 0 <= variant < 10
     pre: 0 <= shape < 4
     post: _
     """
     v = 0
-    for j in range(8):
+    for j in range(10):
         if variant == j:
             v = j
     s = 0
